@@ -45,6 +45,10 @@ def _nonneg(ctx, fi, e: ast.AST, depth=0) -> Tuple[bool, str]:
         if defs and all(isinstance(d, ast.Assign) for d in defs):
             rs = [_nonneg(ctx, fi, d.value, depth + 1) for d in defs]
             return all(r[0] for r in rs), "; ".join(r[1] for r in rs)
+    if isinstance(e, ast.BinOp) and isinstance(e.op, (ast.Mult, ast.Div)) and depth < 4:
+        a, b = _nonneg(ctx, fi, e.left, depth + 1), _nonneg(ctx, fi, e.right, depth + 1)
+        if a[0] and b[0]:
+            return True, "product / quotient of non-negative factors"
     if isinstance(e, ast.BinOp) and isinstance(e.op, ast.Pow):
         p = const_num(e.right)
         if p is not None and (p == 0.5 or (float(p).is_integer() and int(p) % 2 == 0)):
@@ -76,6 +80,7 @@ def run(ctx, res):
     repo, eng = ctx.repo, ctx.types
     fi = repo.fn("distance", "calc.distance")
     computed: Dict[Tuple[str, str], ast.Return] = {}
+    computed_all: List[Tuple[Tuple[str, str], ast.Return]] = []
     for ta, tb in DOCUMENTED:
         sm = eng.summary(fi, (S(ta), S(tb)))
         if sm is None:
@@ -106,6 +111,7 @@ def run(ctx, res):
         else:
             for r in rets:
                 computed[(ta, tb)] = r
+                computed_all.append(((ta, tb), r))
             res.ob("R10.1", fi.where(rets[0]), lab, True, "computed by its own branch (%d return(s))" % len(rets))
         # R10.2 on every reached return
         for r in rets:
@@ -121,6 +127,25 @@ def run(ctx, res):
                           "distance computes (%s, %s) and (%s, %s) in separate branches; symmetry is no longer by construction"
                           % (ta, tb, tb, ta), construct="mixed pair {%s, %s} computed twice" % (ta, tb))
     ctx.require(res, "R10.1", len(DOCUMENTED), 8, "documented pairs")
+    # R10.5 the value does not depend on the length / sign of a Line's direction vector
+    from .c08 import EVEN, Gauge
+    n5 = 0
+    for (ta, tb), r in computed_all:
+        for X, tX in zip(fi.params[:2], (ta, tb)):
+            if tX != "Line":
+                continue
+            n5 += 1
+            G = Gauge(fi, "", 1, q_text="%s.dv" % X)
+            d, par = G.g(r.value)
+            ok = d == 0 and par == EVEN
+            res.ob("R10.5", fi.where(r), "distance(%s, %s) vs length/sign of %s.dv" % (ta, tb, X), ok,
+                   "degree 0 and even in %s.dv" % X if ok else "degree %s, parity %s in %s.dv" % (d, par, X))
+            if not ok:
+                res.violation("R10.5", fi, r,
+                              "distance(%s, %s) depends on the length or sign of the direction vector %s.dv (`%s` is of degree %s, %s "
+                              "in it): two representations of the same line give different distances" % (ta, tb, X, txt(r.value)[:70], d, par),
+                              construct="distance(%s, %s) gauge %s.dv" % (ta, tb, X))
+    ctx.require(res, "R10.5", n5, 4, "direction-gauge obligations")
     # R10.3 method forms
     body = repo.cls("GeoBody")
     m = body.lookup("distance")
